@@ -5,11 +5,11 @@ package s2
 // Thin wrappers exporting unexported functions to the verification harness (property C11).
 // Add-only; no behaviour of the package changes.
 
-func VerifC11AreSiblings(a, b, c, d CellID) bool    { return areSiblings(a, b, c, d) }
-func VerifC11ImmediateParent(ci CellID) CellID      { return ci.immediateParent() }
-func VerifC11IsFace(ci CellID) bool                 { return ci.isFace() }
-func VerifC11Lsb(ci CellID) uint64                  { return ci.lsb() }
-func VerifC11LsbForLevel(level int) uint64          { return lsbForLevel(level) }
+func VerifC11AreSiblings(a, b, c, d CellID) bool { return areSiblings(a, b, c, d) }
+func VerifC11ImmediateParent(ci CellID) CellID   { return ci.immediateParent() }
+func VerifC11IsFace(ci CellID) bool              { return ci.isFace() }
+func VerifC11Lsb(ci CellID) uint64               { return ci.lsb() }
+func VerifC11LsbForLevel(level int) uint64       { return lsbForLevel(level) }
 func VerifC11LowerBound(cu CellUnion, begin, end int, id CellID) int {
 	return cu.lowerBound(begin, end, id)
 }
